@@ -48,6 +48,9 @@ func ModelSchema(t TypeSpec, naming Naming) (ref.Schema, error) {
 	if s, ok := builtinRegistered(t.K); ok {
 		return s, nil
 	}
+	if ck, ok := Custom[t.K]; ok {
+		return ck.Schema, nil
+	}
 	switch t.K {
 	case "bool":
 		return ref.Prim("boolean"), nil
